@@ -112,6 +112,8 @@ class DownsampleRand(Contract):
         s = to_z3(samples)
         ctx.assume(cnt == z3.If(z3.And(s > 0, s < a.n), s, a.n))
         interp.cur_frame.unit._limit_idx = idx
+        interp.cur_frame.unit._limit_arg = a
+        interp.cur_frame.unit._limit_interp = interp
         return (a, idx)
 
 
@@ -227,6 +229,24 @@ class FilterUpdate(Contract):
                           z3.ForAll([k], z3.Implies(rng, allarr.sel(k) == self.spec_pre_limit(k)))))
         else:
             idx = getattr(self, "_limit_idx", None)
+            sub = getattr(self, "_limit_arg", None)
+            if idx is not None and getattr(sub, "sel_mask", None) is not None:
+                interp = self._limit_interp
+                S = models.arr_new(interp, g.N.e, lambda kk: self.spec_pre_limit(kk), "bool")
+                S = SArr(S.n, S.a, "bool")
+                ctx.assume(models.where_ext(interp, sub.sel_mask, S))
+                wS = models.where_idx(interp, S)
+                posts.append(("event limit: the limit is drawn among exactly the qualifying events",
+                              z3.Implies(to_z3(g.enable, "bool"),
+                                         z3.And(sub.n == wS.n,
+                                                z3.ForAll([k], z3.Implies(rng, sub.sel_mask.sel(k) == S.sel(k)))))))
+                posts.append(("event limit: an event remains iff it qualifies and the draw keeps its rank",
+                              z3.Implies(to_z3(g.enable, "bool"),
+                                         z3.ForAll([k], z3.Implies(rng, allarr.sel(k) ==
+                                                                   z3.And(S.sel(k), idx.sel(wS.rank(k))))))))
+            else:
+                posts.append(("event limit: downsample_rand is applied to the qualifying events",
+                              z3.Not(to_z3(g.enable, "bool"))))
             posts.append(("event limit: only qualifying events remain",
                           z3.ForAll([k], z3.Implies(z3.And(rng, allarr.sel(k)), self.spec_pre_limit(k)))))
             posts.append(("event limit: with filters disabled every event is selected",
@@ -379,3 +399,40 @@ def bounded_inputs(unit_name, rng):
                 yield {"N": 3, "deform": list(d), "area_um": [60.0, 130.0, float("nan")], "manual": [True, True, False],
                        "deform_min": a, "deform_max": b, "old_deform_min": oa, "old_deform_max": ob,
                        "enable_filters": en, "remove_invalid": rm, "limit_events": 1}
+
+
+class FilterReset(Contract):
+    """Filter.reset(): establishes FInv from any state: no cached box/polygon/
+    combined arrays, the remembered settings are empty (so that the next update
+    recomputes everything), the manual filter is all True."""
+    path = FILTER
+    module = FMOD
+    name = "Filter.reset"
+    qualname = "Filter.reset"
+    classes = {"Filter": (FILTER, "Filter")}
+    class_modules = {"Filter": FMOD}
+    params = ("self",)
+
+    def inputs(self, ctx):
+        N = ctx.int("N", lo=0, inp=True)
+        self._N = N
+        mk = lambda nm: ctx.arr(nm, "bool", n=N.e)   # noqa
+        self_ = ctx.obj("Filter", {"_box_filters": {"deform": mk("b")}, "_poly_filters": {7: (Z(1), mk("p"))},
+                                   "_array_props": {"all": mk("a"), "box": mk("x")}, "manual": mk("m"),
+                                   "_old_config": {"deform min": 1.0, "enable filters": True},
+                                   "features": list(FEATS), "size": N}, name="self")
+        return {"self": self_}
+
+    def ensures(self, ctx, old, a, result):
+        f = a.self.fields
+        k = z3.Int("k!p")
+        m = f["manual"]
+        return [("no cached box, polygon or combined arrays remain",
+                 z3.BoolVal(f["_box_filters"] == {} and f["_poly_filters"] == {} and f["_array_props"] == {})),
+                ("the remembered settings are empty", z3.BoolVal(f["_old_config"] == {})),
+                ("the manual filter is all True",
+                 z3.And(m.n == self._N.e, z3.ForAll([k], z3.Implies(z3.And(k >= 0, k < m.n), m.sel(k)))))
+                if isinstance(m, SArr) else ("the manual filter is an array", z3.BoolVal(False))]
+
+
+UNITS.append(FilterReset())
